@@ -260,6 +260,12 @@ def run(res, build):
     # very string rtf_encode() returns
     outs = encodecorr.run(res, res.tier)
     res.evaluations += len(outs)
+    # the multi-section path (Model/EncodeMulti.lean), the figure path (Model/EncodeFigure.lean) and nested header
+    # lists on a single frame, byte-exact as well
+    from .. import encodecorr2
+
+    outs = encodecorr2.run(res, res.tier)
+    res.evaluations += len(outs)
     n = 420 if res.tier == "quick" else 6000
     jobs = [(res.seed, k, None) for k in range(n)]
     cdir = common.CORPUS / "C01"
@@ -309,6 +315,10 @@ def run(res, build):
 
 def replay(payload):
     case = payload.get("case") or {}
+    if case.get("level") == "encode-doc2":
+        from .. import encodecorr2
+
+        return encodecorr2.replay_case(case)
     if "spec" not in case:
         for b in payload.get("broken", []):
             print("no longer checks:", b.get("kind"), "-", (b.get("why") or b.get("log") or "")[:600])
